@@ -221,4 +221,17 @@ example : (proxy id exPol 150 exReq (.opens exSess) { exAns with validate := .st
 example : (proxy id exPol 1500 exReq (.opens exSess) exAns).outcome = .startOAuth := by decide
 example : (proxy id exPol 50 { exReq with host := "other.x" } (.opens exSess) exAns).outcome = .startOAuth := by decide
 
+/-- Tie (T1): `Authenticate` — the gate order (provider slug, host binding, lifetime, refresh, validation, validators) — and the two entry points that reuse it — call/branch/store skeletons regenerated from the source on every run; the expectations below are
+what the model in this file transliterates. A structural edit of any of these functions breaks this theorem and sends the
+check searching for a failing input. -/
+theorem C01_wiring :
+    Sso.Generated.skel_proxy_Authenticate =
+      ["call:getRemoteAddr", "call:NewLogEntry", "call:WithRemoteAddress", "call:getRemoteAddr", "defer{", "if{", "call:ClearSession", "}", "}", "call:LoadSession", "if{", "call:Error", "return", "}", "call:Data", "if{", "call:WithUser", "call:Info", "return", "}", "if{", "call:WithProxyHost", "call:WithAuthorizedUpstream", "call:WithUser", "call:Warn", "return", "}", "call:LifetimePeriodExpired", "if{", "call:WithUser", "call:Info", "return", "}", "else{", "call:RefreshPeriodExpired", "if{", "call:RefreshSession", "if{", "call:WithUser", "call:Error", "return", "}", "if{", "call:WithUser", "call:Info", "return", "}", "call:SaveSession", "if{", "call:WithUser", "call:Error", "return", "}", "}", "else{", "call:ValidationPeriodExpired", "if{", "call:ValidateSessionState", "if{", "call:WithUser", "call:Error", "return", "}", "call:SaveSession", "if{", "call:WithUser", "call:Error", "return", "}", "}", "}", "}", "range{", "if{", "call:Validate", "if{", "call:append", "call:Incr", "call:Sprintf", "call:WithRemoteAddress", "call:WithUser", "call:Info", "return", "}", "}", "}", "call:Sprintf", "call:WithRemoteAddress", "call:WithUser", "call:Info", "range{", "call:Set", "}", "call:Set", "if{", "call:Set", "}", "call:Set", "call:Join", "call:Set", "call:Header", "call:Set", "return"] ∧
+    Sso.Generated.skel_proxy_AuthenticateOnly =
+      ["call:NewLogEntry", "call:Authenticate", "if{", "call:Incr", "call:Error", "call:Error", "}", "call:WriteHeader"] ∧
+    Sso.Generated.skel_proxy_IsWhitelistedRequest =
+      ["if{", "return", "}", "range{", "call:MatchString", "if{", "return", "}", "}", "return"] ∧
+    Sso.Generated.skel_proxy_Favicon =
+      ["call:Authenticate", "if{", "call:WriteHeader", "return", "}", "call:Proxy"] := by decide
+
 end Sso.Proxy
